@@ -208,10 +208,11 @@ func (mem *Mempool) checkTxRemote(msg *queue.Message) *queue.Message {
 	}
 
 	//检查mempool内是否有相同的tx.nonce
-	err = mem.evmTxNonceCheck(tx.Tx())
-	if err != nil {
-		msg.Data = err
-		return msg
+	for _, etx := range temtxlist.Txs {
+		if err = mem.evmTxNonceCheck(etx); err != nil {
+			msg.Data = err
+			return msg
+		}
 	}
 
 	err = mem.PushTx(tx.Tx())
